@@ -9,6 +9,7 @@ LAYER_DEFAULTS = {
     'cancun': {'quick': {'n': 150, 'size': 20, 'shards': 2}, 'thorough': {'n': 3000, 'size': 20, 'shards': 16}},
     'precompile': {'quick': {'n': 150, 'size': 20, 'shards': 2}, 'thorough': {'n': 3000, 'size': 20, 'shards': 16}},
     'journal': {'quick': {'n': 60, 'size': 20, 'shards': 2}, 'thorough': {'n': 400, 'size': 100, 'shards': 16}},
+    'interp': {'quick': {'n': 400, 'size': 30, 'shards': 4}, 'thorough': {'n': 6000, 'size': 40, 'shards': 16}},
 }
 
 TB_M1 = ['vm/tracer.go is modelled by hand (Artela/Model/CallTree.lean, StateChanges.lean); Go maps as insertion-ordered '
@@ -41,6 +42,14 @@ TB_M5 = ['vm/evm.go Call/CallCode/DelegateCall/StaticCall/create are modelled by
          'mock Aspects seeded into aspect-core\'s runtime pool (no WASM); errors are compared as Go compares them (the revert sentinel by identity)',
          'the StateDB is go-ethereum\'s state.StateDB; in the model it is its journal of effects (Snapshot = length, Revert = truncate)']
 
+TB_M9 = ['vm/interpreter.go Run (the loop body) and the frame-local instructions of vm/instructions.go (arithmetic, comparison, bitwise, '
+         'stack, memory, copy, jump, push/dup/swap, environment pushes, RETURN/REVERT/STOP), vm/gas_table.go memory/copy/EXP gas, '
+         'vm/memory.go, vm/common.go getData, vm/analysis.go jump-destination analysis are modelled by hand (Artela/Model/Interp.lean); which function a '
+         'table row dispatches to is read from the extracted tables; tied by running generated programs on the real interpreter on every fork and '
+         'comparing pc, opcode, gas, stack height and top, memory size at every step and the frame result (interp layer)',
+         'instructions that touch the world (SLOAD/SSTORE, BALANCE, EXT*, LOG, CALL*, CREATE*, SELFDESTRUCT, KECCAK256, BLOCKHASH, SELFBALANCE, TLOAD/TSTORE) '
+         'end a modelled run (Halt.unmodelled); what happens around nested frames is the frame machine\'s business']
+
 def frame_prop(mods, extra_runs=(), partial=None):
     d = {'modules': mods, 'runs': [{'layer': 'frame'}] + [{'layer': l} for l in extra_runs],
          'trusted_base': TB_M1 + TB_M5, 'assumptions': ['StateDB revision contract (RevertToSnapshot restores all journaled state)', 'one Aspect bound per contract in the generated cases']}
@@ -63,9 +72,9 @@ PROPS = {
         'partial': 'inherited instruction bodies are identity-checked and differentially executed, not modelled; the proved part is the frame-layer refinement (unbound join points and the tracer are invisible)',
     },
     'C02': {
-        'modules': ['Artela.Props.C01', 'Artela.Props.C06', 'Artela.Proofs.GenFacts'],
-        'runs': [{'layer': 'diff'}],
-        'trusted_base': TB_DIFF + TB_M5 + TB_GEN,
+        'modules': ['Artela.Props.C01', 'Artela.Props.C06', 'Artela.Proofs.GenFacts', 'Artela.Props.InterpGas'],
+        'runs': [{'layer': 'diff'}, {'layer': 'interp'}],
+        'trusted_base': TB_DIFF + TB_M5 + TB_GEN + TB_M9,
         'assumptions': ['gas schedule functions are inherited (identity table) and compared step by step, including a gas-limit sweep'],
         'partial': 'as C01',
     },
@@ -77,7 +86,7 @@ PROPS = {
         'partial': 'as C01; withLog log collection of the call tracer is compared with upstream but not modelled',
     },
     'C17': {
-        'modules': ['Artela.Props.C17', 'Artela.Proofs.GenFacts', 'Artela.Props.C07Frame'],
+        'modules': ['Artela.Props.C17', 'Artela.Proofs.GenFacts', 'Artela.Props.C07Frame', 'Artela.Props.InterpAbort', 'Artela.Props.InterpTables'],
         'runs': [{'layer': 'conc'}],
         'trusted_base': TB_GEN + ['Go memory model, sync.Pool, atomic.Bool and map reads are NOT modelled; the race detector (thorough tier) and '
                                   'parallel/sequential comparison are search support only',
@@ -94,7 +103,7 @@ PROPS = {
     },
     'C04': frame_prop(['Artela.Props.C04']),
     'C05': frame_prop(['Artela.Props.C05', 'Artela.Props.C05Nest']),
-    'C06': frame_prop(['Artela.Props.C06', 'Artela.Props.C06Run']),
+    'C06': frame_prop(['Artela.Props.C06', 'Artela.Props.C06Run', 'Artela.Props.InterpGas']),
     'C08': frame_prop(['Artela.Props.C08', 'Artela.Props.C08Count'], ['tracer']),
     'C09': {
         'modules': ['Artela.Props.C09'],
@@ -137,25 +146,27 @@ PROPS = {
         'assumptions': ['a Go slice is shorter than 2^63 bytes', 'host callbacks are arbitrary functions of their arguments (scripted in the harness)'],
     },
     'C12': {
-        'modules': ['Artela.Props.C12', 'Artela.Proofs.GenFacts'],
-        'runs': [{'layer': 'journal'}],
-        'trusted_base': TB_M1 + TB_M2 + TB_GEN,
+        'modules': ['Artela.Props.C12', 'Artela.Proofs.GenFacts', 'Artela.Props.InterpJournal'],
+        'runs': [{'layer': 'journal'}, {'layer': 'interp'}],
+        'trusted_base': TB_M1 + TB_M2 + TB_GEN + TB_M9,
         'assumptions': ['the interpreter loop performs exactly stack check, dynamic gas, execute, pc++ for a table entry without memorySize (inherited, identical to upstream: generated identity table)'],
     },
     'C20': {
-        'modules': ['Artela.Props.C20', 'Artela.Proofs.GenFacts'],
-        'runs': [{'layer': 'journal'}, {'layer': 'precompile'}, {'layer': 'cancun'}],
-        'trusted_base': TB_M1 + TB_M2 + TB_GEN + ['work is counted as 32 units per StateDB read + 1 per byte copied/allocated; the search uses the fixed multiple K=16 (go/layer_journal.go workK)'],
+        'modules': ['Artela.Props.C20', 'Artela.Proofs.GenFacts', 'Artela.Props.InterpHalts', 'Artela.Props.InterpTables'],
+        'runs': [{'layer': 'journal'}, {'layer': 'precompile'}, {'layer': 'cancun'}, {'layer': 'interp'}],
+        'trusted_base': TB_M1 + TB_M2 + TB_GEN + TB_M9 + ['work is counted as 32 units per StateDB read + 1 per byte copied/allocated; the search uses the fixed multiple K=16 (go/layer_journal.go workK)'],
         'assumptions': ['standard instructions and precompiles 1-9: bounded by upstream gas schedule (identity-checked, not modelled)'],
         'partial': 'c20_full is FALSE for the current code (c20_witness_reference_unbounded); proved: c20_partial, c20_value_journal, c20_value_key_journals, c20_key_journal_partial, c20_reference_journal_partial. Known findings D5 (VRJNAL) and D7 (memory-keyed registrations).',
     },
     'C03': {
-        'modules': ['Artela.Props.C03', 'Artela.Props.C14', 'Artela.Props.C15', 'Artela.Props.C07Frame', 'Artela.Proofs.GenFacts'],
-        'runs': [{'layer': 'journal'}, {'layer': 'precompile'}, {'layer': 'cancun'}, {'layer': 'frame'}],
-        'trusted_base': TB_M1 + TB_M2 + TB_M3 + TB_M6,
-        'assumptions': ['inherited instructions are panic-free on an initialised host (identity-checked against go-ethereum v1.12.0, not modelled)',
+        'modules': ['Artela.Props.C03', 'Artela.Props.C14', 'Artela.Props.C15', 'Artela.Props.C07Frame', 'Artela.Proofs.GenFacts',
+                    'Artela.Props.InterpSafe', 'Artela.Props.InterpTables'],
+        'runs': [{'layer': 'journal'}, {'layer': 'precompile'}, {'layer': 'cancun'}, {'layer': 'frame'}, {'layer': 'interp'}, {'layer': 'diff'}],
+        'trusted_base': TB_M1 + TB_M2 + TB_M3 + TB_M6 + TB_M9,
+        'assumptions': ['inherited instructions OUTSIDE the modelled subset (the world-touching ones: SLOAD/SSTORE, BALANCE, EXT*, LOG, CALL*, CREATE*, SELFDESTRUCT, KECCAK256, BLOCKHASH) are panic-free on an initialised host (identity-checked against go-ethereum v1.12.0 and differentially executed, not modelled)',
+                        'Go slices (code, calldata) are shorter than 2^62 bytes',
                         'memory length <= 2^47 (memory expansion gas caps it at 0x1FFFFFFFE0 words)'],
-        'partial': 'c03_partial: Artela-added code (journal opcodes so far) modelled and proved panic-free; inherited instruction bodies assumed',
+        'partial': 'c03_partial: Artela-added code AND the interpreter loop with its frame-local instructions are modelled and proved panic-free on every extracted table (interp_never_panics); world-touching inherited instructions assumed',
     },
     'C16': {
         'modules': ['Artela.Props.C16', 'Artela.Proofs.GenFacts'],
